@@ -12,13 +12,13 @@ use serde_json::{json, Value};
 use std::io::Write;
 use vph::refdec;
 
-pub const RULE: &str = "for each writer front-end × declared/undeclared total × seek policy {off, every frame, seconds} × padding {default 4096, none, 20} × channels/depth {1×16, 2×8, 2×24}: 3.5 blocks of 16 PCM frames are written without finalize; for EVERY byte prefix of the emitted stream (a superset of every write-call boundary) each of the byte, sample and channel readers must deliver exactly the PCM of the frames that lie completely inside the prefix (frame extents from the independent decoder), in order, and then report end of data or an error; a prefix ending inside the metadata yields no samples";
+pub const RULE: &str = "for each writer front-end × declared/undeclared total × seek policy {off, every frame, seconds} × padding {default 4096, none, 20} × channels/depth {1×16, 2×8, 2×24}: 3.5 blocks of 16 PCM frames are written without finalize, plus histories where the caller supplies more or fewer PCM frames than it declared ((supplied, declared) ∈ {(56,40),(48,40),(56,33),(40,17),(33,32),(56,100)}) and stops at the first error; for EVERY byte prefix of the emitted stream (a superset of every write-call boundary) each of the byte, sample and channel readers must deliver exactly the PCM of the frames that lie completely inside the prefix (frame extents from the independent decoder run on a copy whose provisional total is cleared, i.e. without trusting STREAMINFO), in order, and then report end of data or an error; a prefix ending inside the metadata yields no samples";
 pub const ASSUMPTIONS: &[&str] = &["the pre-finalize write log is verified to be append-only at run time (otherwise prefixes would not be the crash images and the check reports a machinery note)", "torn writes inside one write call are covered because every byte prefix is explored; reordering of writes by the OS is out of scope (no syncs exist to order against)"];
 pub fn bounds(_quick: bool) -> Value {
     json!({"prefixes": "every byte prefix", "blocks": "3 complete frames emitted + half a block buffered"})
 }
 
-fn emit(w: WriterKind, opt: &Opt, sig: &Sig, pcm: &[i32]) -> Result<MemDevice, String> {
+fn emit(w: WriterKind, opt: &Opt, sig: &Sig, pcm: &[i32], declared_frames: Option<usize>) -> Result<MemDevice, String> {
     let o = opt.to_options()?;
     guarded(|| -> Result<MemDevice, String> {
         let mut dev = MemDevice::new(vec![], 0);
@@ -28,24 +28,28 @@ fn emit(w: WriterKind, opt: &Opt, sig: &Sig, pcm: &[i32]) -> Result<MemDevice, S
         let cut = 21.min(frames);
         match w {
             WriterKind::Sample => {
-                let mut wr = FlacSampleWriter::new(&mut dev, o, sig.rate, sig.bps, sig.ch, opt.declared.then_some(pcm.len() as u64)).map_err(e)?;
-                wr.write(&pcm[..cut * sig.ch as usize]).map_err(e)?;
-                wr.write(&pcm[cut * sig.ch as usize..]).map_err(e)?;
+                let mut wr = FlacSampleWriter::new(&mut dev, o, sig.rate, sig.bps, sig.ch, declared_frames.map(|d| (d * sig.ch as usize) as u64)).map_err(e)?;
+                // an over-supplying caller sees an error from write(); the encode is "interrupted" right there
+                if wr.write(&pcm[..cut * sig.ch as usize]).is_ok() {
+                    let _ = wr.write(&pcm[cut * sig.ch as usize..]);
+                }
                 std::mem::forget(wr);
             }
             WriterKind::Channel => {
                 let ch = crate::codec::deinterleave(pcm, sig.ch as usize);
-                let mut wr = FlacChannelWriter::new(&mut dev, o, sig.rate, sig.bps, sig.ch, opt.declared.then_some(frames as u64)).map_err(e)?;
-                wr.write(&ch.iter().map(|c| &c[..cut]).collect::<Vec<_>>()).map_err(e)?;
-                wr.write(&ch.iter().map(|c| &c[cut..]).collect::<Vec<_>>()).map_err(e)?;
+                let mut wr = FlacChannelWriter::new(&mut dev, o, sig.rate, sig.bps, sig.ch, declared_frames.map(|d| d as u64)).map_err(e)?;
+                if wr.write(&ch.iter().map(|c| &c[..cut]).collect::<Vec<_>>()).is_ok() {
+                    let _ = wr.write(&ch.iter().map(|c| &c[cut..]).collect::<Vec<_>>());
+                }
                 std::mem::forget(wr);
             }
             _ => {
                 let bytes = pcm_bytes(pcm, sig.bps, false);
                 let bw = bytes.len() / frames.max(1);
-                let mut wr = FlacByteWriter::endian(&mut dev, LittleEndian, o, sig.rate, sig.bps, sig.ch, opt.declared.then_some(bytes.len() as u64)).map_err(e)?;
-                wr.write_all(&bytes[..cut * bw + 1]).map_err(|x| format!("err:io:{x}"))?;
-                wr.write_all(&bytes[cut * bw + 1..]).map_err(|x| format!("err:io:{x}"))?;
+                let mut wr = FlacByteWriter::endian(&mut dev, LittleEndian, o, sig.rate, sig.bps, sig.ch, declared_frames.map(|d| (d * bw) as u64)).map_err(e)?;
+                if wr.write_all(&bytes[..cut * bw + 1]).is_ok() {
+                    let _ = wr.write_all(&bytes[cut * bw + 1..]);
+                }
                 std::mem::forget(wr);
             }
         }
@@ -61,9 +65,9 @@ pub struct Image {
     pub pcm: Vec<i32>,
 }
 
-fn image(w: WriterKind, opt: &Opt, sig: &Sig) -> Result<Image, String> {
-    let pcm = ident_pcm(sig.ch, sig.bps, 56);
-    let dev = emit(w, opt, sig, &pcm)?;
+fn image(w: WriterKind, opt: &Opt, sig: &Sig, supplied: usize, declared_frames: Option<usize>) -> Result<Image, String> {
+    let pcm = ident_pcm(sig.ch, sig.bps, supplied);
+    let dev = emit(w, opt, sig, &pcm, declared_frames)?;
     // append-only?
     let mut end = 0u64;
     for c in &dev.log {
@@ -78,9 +82,18 @@ fn image(w: WriterKind, opt: &Opt, sig: &Sig) -> Result<Image, String> {
             _ => {}
         }
     }
-    let (st, _rej) = refdec::decode_partial(&dev.data);
-    if st.frames.len() != 3 {
-        return Err(format!("machinery: expected 3 complete frames in the emitted stream, independent decoder finds {}", st.frames.len()));
+    // "completely written frames" are found by the independent decoder WITHOUT trusting the provisional total
+    let mut blind = dev.data.clone();
+    if blind.len() >= 42 {
+        blind[8 + 13] &= 0xF0;
+        for b in &mut blind[8 + 14..8 + 18] {
+            *b = 0;
+        }
+    }
+    let (st, _rej) = refdec::decode_partial(&blind);
+    let want_frames = declared_frames.map(|d| supplied.min(d + 15) / 16).unwrap_or(supplied / 16);
+    if st.frames.len() < supplied.min(declared_frames.unwrap_or(supplied)) / 16 || st.frames.len() > want_frames.max(supplied / 16) {
+        return Err(format!("machinery: unexpected number of complete frames in the emitted stream: {}", st.frames.len()));
     }
     let mut cum = 0;
     let frame_ends = st.frames.iter().map(|f| { cum += f.block_size as usize * sig.ch as usize; (f.offset + f.len, cum) }).collect();
@@ -108,15 +121,23 @@ fn check_prefix(img: &Image, len: usize, r: ReaderKind) -> Result<&'static str, 
     Ok(if ended == "eof" { "clean-end" } else { "error-end" })
 }
 
-fn configs() -> Vec<(WriterKind, Opt, Sig)> {
+fn configs() -> Vec<(WriterKind, Opt, Sig, usize, Option<usize>)> {
     let mut v = Vec::new();
     for w in [WriterKind::Sample, WriterKind::ByteLE, WriterKind::Channel] {
         for declared in [true, false] {
             for seek in [Seek::Off, Seek::Frames(1), Seek::Default] {
                 for pad in [Pad::Default, Pad::None, Pad::Size(20)] {
                     for sig in [Sig { rate: 44100, bps: 16, ch: 1 }, Sig { rate: 8000, bps: 8, ch: 2 }, Sig { rate: 96000, bps: 24, ch: 2 }] {
-                        v.push((w, Opt { declared, seek, pad, ..Opt::base16() }, sig));
+                        v.push((w, Opt { declared, seek, pad, ..Opt::base16() }, sig, 56, declared.then_some(56)));
                     }
+                }
+            }
+        }
+        // the caller supplies more (or fewer) PCM frames than it declared and the encode stops there
+        for (supplied, declared) in [(56usize, 40usize), (48, 40), (56, 33), (40, 17), (33, 32), (56, 100)] {
+            for seek in [Seek::Off, Seek::Frames(1)] {
+                for sig in [Sig { rate: 44100, bps: 16, ch: 1 }, Sig { rate: 8000, bps: 8, ch: 2 }] {
+                    v.push((w, Opt { declared: true, seek, pad: Pad::Size(20), ..Opt::base16() }, sig, supplied, Some(declared)));
                 }
             }
         }
@@ -125,22 +146,22 @@ fn configs() -> Vec<(WriterKind, Opt, Sig)> {
 }
 
 pub fn run(ctx: &Ctx, acc: &mut Acc) {
-    for (w, opt, sig) in configs() {
-        let img = match image(w, &opt, &sig) {
+    for (w, opt, sig, supplied, declared_frames) in configs() {
+        let img = match image(w, &opt, &sig, supplied, declared_frames) {
             Ok(i) => i,
             Err(e) => {
                 if ctx.shard == 0 {
                     if e.starts_with("machinery") {
                         acc.notes.push(e);
                     } else {
-                        acc.violation(format!("C14|emit|{}", crate::codec::err_class(&e)), format!("writing without finalize failed: {e}"), json!({"kind":"crash-prefix","writer":format!("{w:?}"),"opt":opt.to_json(),"rate":sig.rate,"bps":sig.bps,"ch":sig.ch,"prefix":0,"reader":"SampleFill"}));
+                        acc.violation(format!("C14|emit|{}", crate::codec::err_class(&e)), format!("writing without finalize failed: {e}"), json!({"kind":"crash-prefix","writer":format!("{w:?}"),"opt":opt.to_json(),"rate":sig.rate,"bps":sig.bps,"ch":sig.ch,"prefix":0,"reader":"SampleFill","supplied":supplied,"declared_frames":declared_frames}));
                     }
                 }
                 continue;
             }
         };
         if ctx.shard == 0 && acc.samples.len() < 3 {
-            acc.sample(json!({"writer":format!("{w:?}"),"opt":opt.to_json(),"ch":sig.ch,"bps":sig.bps,"emitted_bytes":img.bytes.len(),"first_frame":img.first_frame,"frame_ends":img.frame_ends.iter().map(|x| x.0).collect::<Vec<_>>()}));
+            acc.sample(json!({"writer":format!("{w:?}"),"opt":opt.to_json(),"ch":sig.ch,"bps":sig.bps,"supplied":supplied,"declared_frames":declared_frames,"emitted_bytes":img.bytes.len(),"first_frame":img.first_frame,"frame_ends":img.frame_ends.iter().map(|x| x.0).collect::<Vec<_>>()}));
         }
         for len in 0..=img.bytes.len() {
             if !ctx.mine() {
@@ -152,10 +173,10 @@ pub fn run(ctx: &Ctx, acc: &mut Acc) {
                 acc.transitions += 1;
                 let region = if len < img.first_frame { "in-metadata" } else if img.frame_ends.iter().any(|(e, _)| *e == len) || len == img.first_frame { "at-frame-boundary" } else { "mid-frame" };
                 match check_prefix(&img, len, r) {
-                    Ok(how) => acc.outcome(format!("{r:?}:decl{}:{region}:{how}", opt.declared)),
+                    Ok(how) => acc.outcome(format!("{r:?}:decl{}:supplied{}:{region}:{how}", declared_frames.map(|d| d.to_string()).unwrap_or("none".into()), supplied)),
                     Err((clause, detail)) => {
                         acc.outcome(format!("{r:?}:{region}:BAD"));
-                        acc.violation(format!("C14|{r:?}|{region}|{clause}"), format!("{w:?} {:?} {}ch/{}bit: {detail}", opt, sig.ch, sig.bps), json!({"kind":"crash-prefix","writer":format!("{w:?}"),"opt":opt.to_json(),"rate":sig.rate,"bps":sig.bps,"ch":sig.ch,"prefix":len,"reader":format!("{r:?}")}));
+                        acc.violation(format!("C14|{r:?}|{region}|{clause}"), format!("{w:?} {:?} {}ch/{}bit: {detail}", opt, sig.ch, sig.bps), json!({"kind":"crash-prefix","writer":format!("{w:?}"),"opt":opt.to_json(),"rate":sig.rate,"bps":sig.bps,"ch":sig.ch,"prefix":len,"reader":format!("{r:?}"),"supplied":supplied,"declared_frames":declared_frames}));
                     }
                 }
             }
@@ -167,7 +188,7 @@ pub fn replay(v: &Value) -> Option<(bool, String)> {
     if v["kind"] != "crash-prefix" {
         return None;
     }
-    let img = match image(crate::codec::writer_from(v["writer"].as_str()?), &Opt::from_json(&v["opt"]), &crate::codec::sig_from(v)) {
+    let img = match image(crate::codec::writer_from(v["writer"].as_str()?), &Opt::from_json(&v["opt"]), &crate::codec::sig_from(v), v["supplied"].as_u64().unwrap_or(56) as usize, v["declared_frames"].as_u64().map(|d| d as usize)) {
         Ok(i) => i,
         Err(e) => return Some((true, e)),
     };
